@@ -16,6 +16,7 @@ type S3Model struct {
 type Obj struct {
 	Body []byte
 	MD5  string // hex
+	Tag  string // distinguishes uploads of identical bytes (the checks derive the metadata they send from body and tag)
 }
 
 func MD5Hex(b []byte) string { s := md5.Sum(b); return hex.EncodeToString(s[:]) }
@@ -97,11 +98,13 @@ func (m *S3Model) ListBuckets() Outcome {
 	return Outcome{Status: 200, Names: names}
 }
 
-func (m *S3Model) Put(b, k string, body []byte) Outcome {
+func (m *S3Model) Put(b, k string, body []byte) Outcome { return m.PutTagged(b, k, body, "") }
+
+func (m *S3Model) PutTagged(b, k string, body []byte, tag string) Outcome {
 	if !m.ensure(b) {
 		return noBucket
 	}
-	o := Obj{Body: body, MD5: MD5Hex(body)}
+	o := Obj{Body: body, MD5: MD5Hex(body), Tag: tag}
 	m.Buckets[b][k] = o
 	return Outcome{Status: 200, Obj: &o}
 }
